@@ -277,7 +277,8 @@ def bases_first_premises(ctx, rep, rule):
               'order_by_bases: gather every layer into one list, reverse exactly once',
               'found %d gather_layers call sites and %d reversals' % (len(gcalls), len(set(revs))),
               key='order_by_bases:gather-reverse', where=ctx.where(fo, fo.node), func=fo.qualname)
-    # dedupe: the append to the result is guarded by a not-seen test on the layer itself
+    # dedupe: the append to the result happens only while the layer has not been seen
+    # (dominating literal ``layer in <seen>`` negative, whatever the spelling of the guard)
     ret = [n for n in go.nodes if n.kind == 'stmt' and isinstance(n.ast, ast.Return)]
     resname = dotted(ret[-1].ast.value) if ret and ret[-1].ast.value is not None else None
     good = False
@@ -289,14 +290,21 @@ def bases_first_premises(ctx, rep, rule):
             elem = c.args[0] if c.args else None
             if not isinstance(elem, ast.Name):
                 continue
-            guards = [t for t in go.nodes if t.kind == 'test' and membership_test(t.ast) and
-                      membership_test(t.ast)[0] and is_name(membership_test(t.ast)[1], elem.id)]
-            for t in guards:
-                # append reachable only through the true ("not seen") edge
-                r = go.reach([go.entry], include_start=True,
-                             edge_ok=lambda s, d, k, t=t: not (s == t.id and k == 'true'))
-                if nid not in r:
-                    good = True
+            for e, pos in go.dominating_literals(nid):
+                if isinstance(e, ast.Compare) and len(e.ops) == 1 and isinstance(e.ops[0], ast.In) \
+                        and not pos and is_name(e.left, elem.id) and \
+                        isinstance(e.comparators[0], ast.Name) and e.comparators[0].id != p0:
+                    seen = e.comparators[0].id
+                    # the layer is recorded as seen in the same iteration
+                    marks = [m_.id for m_ in go.nodes if m_.kind == 'stmt' and (
+                        (isinstance(m_.ast, ast.Assign) and any(
+                            isinstance(t, ast.Subscript) and is_name(t.value, seen) and
+                            is_name(t.slice, elem.id) for t in m_.ast.targets)) or
+                        any(isinstance(cc.func, ast.Attribute) and cc.func.attr == 'add' and
+                            is_name(cc.func.value, seen) and cc.args and is_name(cc.args[0], elem.id)
+                            for cc in calls_in(m_.ast)))]
+                    if marks:
+                        good = True
     rep.check(good, rule, 'order_by_bases: each layer kept once (first occurrence after the reversal)',
               'the result append is not guarded by a not-yet-seen test keyed by the layer',
               key='order_by_bases:dedupe', where=ctx.where(fo, fo.node), func=fo.qualname)
@@ -365,3 +373,128 @@ def eval_bool(expr, atom):
     if isinstance(expr, ast.Constant):
         return bool(expr.value)
     return atom(expr)
+
+
+# ---- robust path conditions and local expansion ---------------------------------------------
+
+def node_of(g, astnode):
+    """id of the CFG node whose evaluated AST contains *astnode* (first match), or None"""
+    for n in g.nodes:
+        a = n.ast
+        if a is None:
+            continue
+        if n.kind == 'with':
+            parts = [it.context_expr for it in a.items]
+        elif n.kind == 'handler':
+            parts = [a.type] if a.type is not None else []
+        elif n.kind in ('test', 'for'):
+            parts = [a]
+        else:
+            parts = [a]
+        for part in parts:
+            if part is astnode:
+                return n.id
+            if n.kind == 'stmt' and isinstance(part, (ast.If, ast.For, ast.While, ast.Try, ast.With)):
+                continue
+            for x in walk_no_defs(part):
+                if x is astnode:
+                    return n.id
+    return None
+
+
+def single_assignments(fnode):
+    """{name: value expr} for locals assigned exactly once by a plain ``name = expr``"""
+    cnt, val = {}, {}
+    for n in walk_no_defs(fnode):
+        if isinstance(n, ast.Assign):
+            for t in n.targets:
+                for x in ast.walk(t):
+                    if isinstance(x, ast.Name):
+                        cnt[x.id] = cnt.get(x.id, 0) + 1
+                        if len(n.targets) == 1 and t is x:
+                            val[x.id] = n.value
+        elif isinstance(n, (ast.AugAssign, ast.AnnAssign, ast.NamedExpr)):
+            for x in ast.walk(n.target):
+                if isinstance(x, ast.Name):
+                    cnt[x.id] = cnt.get(x.id, 0) + 2
+        elif isinstance(n, (ast.For, ast.comprehension)):
+            for x in ast.walk(n.target):
+                if isinstance(x, ast.Name):
+                    cnt[x.id] = cnt.get(x.id, 0) + 2
+        elif isinstance(n, ast.With):
+            for it in n.items:
+                if it.optional_vars is not None:
+                    for x in ast.walk(it.optional_vars):
+                        if isinstance(x, ast.Name):
+                            cnt[x.id] = cnt.get(x.id, 0) + 2
+        elif isinstance(n, ast.ExceptHandler) and n.name:
+            cnt[n.name] = cnt.get(n.name, 0) + 2
+    args = fnode.args
+    for a in args.posonlyargs + args.args + args.kwonlyargs:
+        cnt[a.arg] = cnt.get(a.arg, 0) + 2
+    return {k: v for k, v in val.items() if cnt.get(k) == 1}
+
+
+class _Subst(ast.NodeTransformer):
+    def __init__(self, env, depth=3):
+        self.env, self.depth = env, depth
+
+    def visit_Name(self, node):
+        if isinstance(node.ctx, ast.Load) and node.id in self.env and self.depth > 0:
+            import copy
+            v = copy.deepcopy(self.env[node.id])
+            return _Subst(self.env, self.depth - 1).visit(v)
+        return node
+
+
+def expander(fnode, only=None):
+    """expand(expr): substitute single-assignment locals (optionally only those whose value
+    satisfies *only(value)*) by their defining expressions -- guards such as
+    ``level_selected = a or b; if level_selected and c`` become ``(a or b) and c``"""
+    env = single_assignments(fnode)
+    if only is not None:
+        env = {k: v for k, v in env.items() if only(v)}
+
+    def expand(e):
+        import copy
+        new = _Subst(env).visit(copy.deepcopy(e))
+        ast.fix_missing_locations(new)
+        for p in ast.walk(new):
+            for c in ast.iter_child_nodes(p):
+                c._parent = p
+        return new
+    return expand
+
+
+def is_boolish(v):
+    return isinstance(v, (ast.BoolOp, ast.Compare)) or \
+        (isinstance(v, ast.UnaryOp) and isinstance(v.op, ast.Not))
+
+
+def alias_dotted(fnode, expr):
+    """dotted text of *expr* after resolving single-assignment locals that are plain aliases
+    (``out = sys.stdout`` / ``options = self.runner.options``)"""
+    d = dotted(expr)
+    if d is None:
+        return None
+    env = single_assignments(fnode)
+    for _ in range(3):
+        head, _, rest = d.partition('.')
+        v = env.get(head)
+        dv = dotted(v) if v is not None else None
+        if dv is None:
+            break
+        d = dv + ('.' + rest if rest else '')
+    return d
+
+
+def guard_literals(ctx, fi, astnode, g=None, expand_bools=True):
+    """dominating branch literals of the CFG node that evaluates *astnode* (falls back to the
+    syntactic nesting when the node is not found)"""
+    from sa.variance import path_literals
+    g = g or ctx.cfg(fi)
+    nid = node_of(g, astnode)
+    if nid is None:
+        return path_literals(astnode, fi.node)
+    exp = expander(fi.node, is_boolish) if expand_bools else None
+    return g.dominating_literals(nid, expand=exp)
